@@ -8,6 +8,7 @@ import sys
 def main():
     verif, harness_seed, n, with_neg = sys.argv[1], int(sys.argv[2]), int(sys.argv[3]), sys.argv[4] == "1"
     nan_seed = sys.argv[4] == "2"
+    eq_seeds = sys.argv[4] in ("3", "4")        # seeds that are equal under == but seed the generator differently
     sys.path.insert(0, verif)
     from harness.gen_schema import SchemaGen
     from harness.common import d42  # noqa: F401
@@ -61,7 +62,19 @@ def main():
     if nan_seed:
         # the recorded finding K19: a NaN seed is hashed by object identity
         schemas, seeds = [schema.int, schema.str.len(8), schema.list(schema.int).len(3)], (float("nan"),)
-    out = {"schemas": [repr(s) for s in schemas], "runs": {}}
+    if eq_seeds:
+        # what a seed gives must not depend on which OTHER seeds the process used before: the same seeds in the opposite
+        # order in another interpreter (mode 4) must give the same values per seed
+        schemas = [schema.int, schema.str.len(8), schema.list(schema.int).len(3), schema.float]
+        seeds = (-3, -3.0, 2 ** 70, 2.0 ** 70, 1, True, 1.0, 0, False, 0.0, -0.0, "1", b"1", bytearray(b"1"), 5, 5.0, "", b"")
+        if sys.argv[4] == "4":
+            seeds = tuple(reversed(seeds))
+    def safe(s):
+        try:
+            return repr(s)
+        except Exception as e:  # noqa: BLE001  (printing is C06's business; here the schema only needs a label)
+            return "<%s whose repr raises %s>" % (type(s).__name__, type(e).__name__)
+    out = {"schemas": [safe(s) for s in schemas], "runs": {}}
     for k in seeds:
         seqs = []
         for rep in range(2):
@@ -77,7 +90,7 @@ def main():
                 except Exception as e:  # noqa: BLE001
                     vals.append("EXC:" + type(e).__name__)
             seqs.append(vals)
-        out["runs"][repr(k)] = seqs
+        out["runs"][type(k).__name__ + ":" + repr(k) if eq_seeds else repr(k)] = seqs
     print(json.dumps(out))
 
 
